@@ -33,7 +33,7 @@ func TestC02(t *testing.T) {
 	dir := evid.TempDir(t)
 	nHist := r.N(3000, 60000)
 	cfg := ops.GenCfg{
-		Names:  []string{"a", "a", "a", "b", "b", "c/d", "", "_internal/x", "c/../a", "b/", "c//d", "./a", "x", "x", "_internal/_internal/x"},
+		Names:  []string{"a", "a", "a", "b", "b", "c/d", "", "_internal/x", "c/../a", "b/", "c//d", "./a", "x", "x", "_internal/_internal/x", " a", "a ", "b\n", "\ta"},
 		Values: [][]byte{[]byte(""), []byte("one"), []byte("two"), []byte("one"), {0, 255, '\n'}},
 		Weights: map[ops.Kind]int{ops.List: 1, ops.Info: 2, ops.Get: 2, ops.GetVer: 3, ops.GetCond: 1,
 			ops.Put: 10, ops.Act: 5, ops.DelVer: 7, ops.Delete: 1},
